@@ -40,7 +40,7 @@ def run_shard(prop, tier, seed, shard, nshards):
         "cases": ncases, "sigs": sorted(sigs), "evals": ctx.evals,
         "ops": dict(ctx.ops), "branches": dict(ctx.branches), "workloads": per_w,
         "violations": ctx.violations, "nviol": ctx.nviol, "samples": samples,
-        "cov": linecov.report(), "wall": time.time() - t0,
+        "cov": linecov.report(), "wall": time.time() - t0, "passes": dict(ctx.passes),
     }
 
 
